@@ -38,10 +38,11 @@ const (
 	stStatusOnly        // a second reconciler's status-only write (data and pending id unchanged)
 	stPrune             // Reconciler.Prune()
 	stInitDone          // complete the next pending initializer
+	stInsertUnset       // insert/update the data with a zero status (the object is not handed to this reconciler)
 	numStepKinds
 )
 
-var stepNames = []string{"upsert", "delete", "delete+reinsert", "insertDone", "statusOnly", "prune", "initDone"}
+var stepNames = []string{"upsert", "delete", "delete+reinsert", "insertDone", "statusOnly", "prune", "initDone", "insertUnset"}
 
 type Step struct {
 	After int `json:"after"` // virtual ms after the previous step
@@ -302,6 +303,11 @@ func (w *world) apply(kind int, id uint64) {
 		gen++
 		o := &RObj{ID: id, Val: gen*10 + int(id), Gen: gen}
 		o.Statuses = reconciler.NewStatusSet().Set(recName, reconciler.StatusDone())
+		w.table.Insert(wtxn, o)
+	case stInsertUnset:
+		gen++
+		o := &RObj{ID: id, Val: gen*10 + int(id), Gen: gen}
+		o.Statuses = reconciler.NewStatusSet().Set(recName, reconciler.Status{})
 		w.table.Insert(wtxn, o)
 	case stStatusOnly:
 		if !found {
